@@ -21,6 +21,8 @@ use super::{
     channel::ReceiveIfaceInfo, device::RusbDeviceHandle, LibUsbError, ReceiveChannel, Result,
 };
 use rusb::UsbContext;
+#[cfg(cameleon_verif)]
+use super::verif::{poll_completed, AsyncTransfer};
 
 #[doc(hidden)]
 /// Represents a pool of asynchronous transfers, that can be polled to completion.
@@ -28,8 +30,6 @@ pub struct AsyncPool<'a> {
     handle: AsyncHandle<'a>,
     iface_info: ReceiveIfaceInfo,
     pending: VecDeque<AsyncTransfer>,
-    #[cfg(cameleon_verif)]
-    verif_pending: VecDeque<super::verif::VerifTransfer>,
 }
 
 impl<'a> AsyncPool<'a> {
@@ -41,27 +41,11 @@ impl<'a> AsyncPool<'a> {
             handle,
             iface_info,
             pending: VecDeque::new(),
-            #[cfg(cameleon_verif)]
-            verif_pending: VecDeque::new(),
         }
     }
 
     #[doc(hidden)]
     pub fn submit(&mut self, buf: &mut [u8]) -> Result<()> {
-        #[cfg(cameleon_verif)]
-        {
-            let id = self
-                .handle
-                .0
-                .submit_bulk(self.iface_info.bulk_in_ep, buf.len())?;
-            self.verif_pending.push_back(super::verif::VerifTransfer {
-                id,
-                ptr: buf.as_mut_ptr(),
-                len: buf.len(),
-            });
-            return Ok(());
-        }
-        #[cfg(not(cameleon_verif))]
         // Safety: If transfer is submitted, it is pushed onto `pending` where it will be
         // dropped before `device` is freed.
         unsafe {
@@ -78,29 +62,6 @@ impl<'a> AsyncPool<'a> {
     ///
     /// Panics if there is no pending transfer.
     pub fn poll(&mut self, timeout: Duration) -> Result<usize> {
-        #[cfg(cameleon_verif)]
-        {
-            debug_assert!(!self.verif_pending.is_empty());
-            let next = self.verif_pending.front().unwrap();
-            return match self.handle.0.poll_bulk(next.id, timeout) {
-                super::verif::VerifPoll::Pending => Err(LibUsbError::Timeout.into()),
-                super::verif::VerifPoll::Completed(res) => {
-                    let transfer = self.verif_pending.pop_front().unwrap();
-                    let data = res?;
-                    if data.len() > transfer.len {
-                        return Err(LibUsbError::Overflow.into());
-                    }
-                    // Safety: same contract as the libusb path, the buffer passed to `submit`
-                    // outlives the transfer.
-                    unsafe {
-                        std::ptr::copy_nonoverlapping(data.as_ptr(), transfer.ptr, data.len());
-                    }
-                    Ok(data.len())
-                }
-            };
-        }
-        #[cfg(not(cameleon_verif))]
-        {
         debug_assert!(!self.pending.is_empty());
         let next = self.pending.front().unwrap();
         if poll_completed(self.handle.context(), timeout, next.completed_flag())? {
@@ -109,15 +70,10 @@ impl<'a> AsyncPool<'a> {
         } else {
             Err(LibUsbError::Timeout.into())
         }
-        }
     }
 
     #[doc(hidden)]
     pub fn cancel_all(&mut self) {
-        #[cfg(cameleon_verif)]
-        for transfer in self.verif_pending.iter().rev() {
-            self.handle.0.cancel_bulk(transfer.id);
-        }
         // Cancel in reverse order to avoid a race condition in which one
         // transfer is cancelled but another submitted later makes its way onto
         // the bus.
@@ -129,11 +85,6 @@ impl<'a> AsyncPool<'a> {
     /// Returns the number of async transfers pending.
     #[doc(hidden)]
     pub fn pending(&self) -> usize {
-        #[cfg(cameleon_verif)]
-        {
-            return self.verif_pending.len();
-        }
-        #[cfg(not(cameleon_verif))]
         self.pending.len()
     }
 
@@ -153,10 +104,12 @@ impl Drop for AsyncPool<'_> {
     }
 }
 
+#[cfg(not(cameleon_verif))]
 struct AsyncTransfer {
     ptr: NonNull<libusb1_sys::libusb_transfer>,
 }
 
+#[cfg(not(cameleon_verif))]
 impl AsyncTransfer {
     /// Invariant: Caller must ensure `device` outlives this transfer.
     unsafe fn new_bulk(
@@ -251,6 +204,7 @@ impl AsyncTransfer {
 }
 
 /// Invariant: transfer must not be pending.
+#[cfg(not(cameleon_verif))]
 impl Drop for AsyncTransfer {
     fn drop(&mut self) {
         unsafe {
@@ -269,6 +223,7 @@ impl Drop for AsyncTransfer {
 ///
 /// This design is based on
 /// <https://libusb.sourceforge.io/api-1.0/libusb_mtasync.html#threadwait>
+#[cfg(not(cameleon_verif))]
 fn poll_completed(
     ctx: &impl UsbContext,
     timeout: Duration,
